@@ -32,6 +32,23 @@ Definition cb_resize (b : cbuf) (n newcap : Z) : cbuf :=
 (* `clone()`: `Vec::clone` -> `with_capacity(len)` *)
 Definition cb_clone (b : cbuf) : cbuf := mkCB (cb_rows b) (cb_rows b).
 
+(* `Vec::reserve(additional)`: afterwards capacity >= len + additional; nothing happens when that already holds,
+   otherwise std reallocates to a capacity of its choice (`newcap`), at least len + additional *)
+Definition cb_reserve (b : cbuf) (additional newcap : Z) : cbuf :=
+  if cb_rows b + additional <=? cb_cap b then b
+  else mkCB (cb_rows b) (Z.max (cb_rows b + additional) newcap).
+
+(* seeded change C06/6: `resize_uninitialized(rows)`: `if rows > capacity { reserve(rows - capacity) } set_len(rows)`
+   (`reserve` counts from len, not from capacity) *)
+Definition cb_resize_uninit_seeded (b : cbuf) (n newcap : Z) : cbuf :=
+  let b' := if cb_cap b <? n then cb_reserve b (n - cb_cap b) newcap else b in
+  mkCB n (cb_cap b').
+
+(* the same with the correct amount: `reserve(rows - len)` *)
+Definition cb_resize_uninit (b : cbuf) (n newcap : Z) : cbuf :=
+  let b' := if cb_cap b <? n then cb_reserve b (n - cb_rows b) newcap else b in
+  mkCB n (cb_cap b').
+
 (* allocated bytes of the three matrices of a scoring call *)
 Definition alloc_score (es : Z) (p : SP) (scap pcap dcap : Z) (b : nat) : Z :=
   if Nat.eqb b B_SRC then scap * psst p
